@@ -316,13 +316,16 @@ PROPS["C08"] = dict(
     trusted=["badger; the write-time duplicate detection of the sink dataset (C01/C02)", "a process death is simulated by a panic that unwinds the pipeline after the sink accepted the batch "
              "(the stored state is what a crash would leave; in-memory state of sources and sink survives, as after a failed run)", "HTTP sources/sinks and transforms are outside this check (C10 covers the transform split)"],
     assumptions=["member datasets of a union have disjoint entity ids (otherwise 'the source's latest view' is not defined)", "no source writes while a run is in progress (the property's premise); writes between runs are arbitrary"],
-    level_text="Proof: in every state reachable through any history of source writes, pages of any size accepted by the sink, token stores, aborts at any point (sink failure, interrupt, kill, death "
-               "between sink write and token store) and full-sync starts that clear the token, the stored token is never ahead of what the sink holds (token_never_ahead, invariant by induction "
-               "over the history); a run that reaches the end of the feed leaves sink view = source view (converges_at_end), any undisturbed run with batch size >= 1 after any history does so and "
-               "stores the end token (next_run_restores), an idle page changes nothing (rerun_changes_nothing); without the token reset a failed full sync diverges (full_sync_abort_without_reset_diverges, "
-               "defect D28, fixed). The order sink-call / error-check / token-store, the reset after startFullSync, the single endFullSync after the read loop and the union source's Update-before-callback "
-               "and return-on-error are regenerated facts (facts_*). The detailed executable model of both pipelines, both sources and the sink (Hub.Pipe) is compared with the real code on generated scripts. "
-               "PARTIAL: a full sync over a multi-version history is not a no-op for the sink's feed (known finding D29).",
+    level_text="Proof on the detailed model Hub.Pipe, which follows pipeline.go / dataset_source.go / sink.go statement by statement and is the model compared with the code: for a job over one "
+               "dataset source reading all versions, any batch size >= 1, a run keeps token safety whatever happens to it — the sink rejects any call, the run is killed after any batch, the process dies "
+               "between the sink write and the token store, incremental or full sync (pipe_run_safe: for every id changed below the stored token the sink's latest version is a source version at "
+               "least as new; readPage is proved to be the slice [cursor, cursor+batch) of the feed, the sink's duplicate detection and CompleteFullSync are part of the model); this holds over every "
+               "history of source writes and runs from the empty hub (pipe_token_safe), and any run that ends ok leaves the sink's latest version of every source id equal to the source's "
+               "(pipe_converges: convergence and recovery). The same statements on the abstract feed/cursor/token model Hub.Sync (token_never_ahead, converges_at_end, next_run_restores, "
+               "rerun_changes_nothing) cover arbitrary interleavings of writes with pages; without the token reset a failed full sync diverges (full_sync_abort_without    level_note="Trusted: Lean kernel, factgen, badger. Hub.Pipe is compared with the real pipelines, sources and sink on generated scripts with faults; union/latest-only jobs are covered by that "
+               "correspondence and by the abstract Hub.Sync theorems only.",
+ces and latest-only reads are in the executable model and the correspondence but not in the Hub.Pipe theorems; a "
+               "full sync over a multi-version history is not a no-op for the sink's feed (known finding D29).",
     level_note="Trusted: Lean kernel, factgen, badger. The theorems are about the abstract feed/cursor/token model (Hub.Sync); its refinement by the detailed model Hub.Pipe (latest-only reads, "
                "union tokens, duplicate detection, CompleteFullSync) is validated by the correspondence, not proved.",
 )
